@@ -41,6 +41,8 @@ def run(W, chk):
             exact_origins(da[2]) == {O + ".operations[*].MantraSwap.token_out_denom"} and keys == {O + ".operations[*].MantraSwap.pool_identifier"}
         chk.expect(ok, "AGREE-route", "simulate.hop", "hop(offer = initial amount or previous return, token_in -> token_out, pool_identifier)",
                    "simulated hop is fed %s / %s / pools %s" % ({k: sorted(v) for k, v in am.items()}, sorted(all_origins(da[2])), sorted(keys)), where(e))
+    from rules.common import no_truncation
+    no_truncation(chk, Q, r"\.operations\[\*\]", "simulate.all-hops", "AGREE-route")
     r = Q.ret if Q.ret is not None else EMPTY
     ra = opmap(vfield(r, "return_amount"))
     chk.expect(ra == {O + ".offer_amount": frozenset(), C + ".return_amount": frozenset()}, "AGREE-route", "simulate.result",
@@ -57,6 +59,7 @@ def run(W, chk):
             exact_origins(da[2]) == {E + ".operations[*].MantraSwap.token_out_denom"} and keys == {E + ".operations[*].MantraSwap.pool_identifier"}
         chk.expect(ok, "AGREE-route", "execute.hop", "hop(offer = paid amount or previous return_asset, -> token_out, pool_identifier)",
                    "executed hop is fed %s / %s / pools %s" % ({k: sorted(v) for k, v in am.items()}, sorted(all_origins(da[2])), sorted(keys)), where(e))
+    no_truncation(chk, X, r"\.operations\[\*\]", "execute.all-hops", "AGREE-route")
     mp = X.calls(r"cw_utils::must_pay$")
     chk.expect(len(mp) == 1 and exact_origins(mp[0].extra["dargs"][1]) == {E + ".operations[*].MantraSwap.token_in_denom"}, "AGREE-route", "execute.offer",
                "the paid-in coin must be the first operation's input denom", "must_pay denom %s" % [sorted(all_origins(x.extra["dargs"][1])) for x in mp], X.entry)
